@@ -266,16 +266,24 @@ theorem step_safe {s s' : FS} {e : Sys} {dest : Path} {v : Option Content} (hwf 
 
 /-! ## Runs -/
 
+theorem runAbort_cons_ok {s s' : FS} {e : Sys} (h : step s e = .ok s') (es : List Sys) :
+    runAbort s (e :: es) = runAbort s' es := by
+  simp only [runAbort, h]
+
+theorem runAbort_cons_err {s : FS} {e : Sys} {er : Errno} (h : step s e = .error er)
+    (es : List Sys) : runAbort s (e :: es) = (s, false) := by
+  simp only [runAbort, h]
+
 theorem runAbort_append (s : FS) (a b : List Sys) :
     runAbort s (a ++ b) =
       if (runAbort s a).2 then runAbort (runAbort s a).1 b else ((runAbort s a).1, false) := by
   induction a generalizing s with
   | nil => simp [runAbort]
   | cons e es ih =>
-    simp only [List.cons_append, runAbort]
+    rw [List.cons_append]
     cases hstep : step s e with
-    | error er => simp
-    | ok s' => simp only; exact ih s'
+    | error er => rw [runAbort_cons_err hstep, runAbort_cons_err hstep]; simp
+    | ok s' => rw [runAbort_cons_ok hstep, runAbort_cons_ok hstep]; exact ih s'
 
 theorem runAbort_wf {s : FS} (h : WF s) (es : List Sys) : WF (runAbort s es).1 := by
   induction es generalizing s with
@@ -344,7 +352,7 @@ theorem abort_safe {pr : Probe} {tmp dest : Path} (hn : TempNames pr tmp dest) (
 /-- The temporary file is open as `fd` (the only descriptor on it) and holds `c`. -/
 def TmpOpen (s : FS) (tmp : Path) (fd : Nat) (c : Content) : Prop :=
   ∃ i, s.names tmp = some i ∧ s.fds fd = some (i, c.length) ∧ s.cache i = c ∧
-    ∀ fd' off, s.fds fd' = some (i, off) → fd' = fd
+    (∀ fd' off, s.fds fd' = some (i, off) → fd' = fd) ∧ (c ≠ [] → s.dirty i = true)
 
 /-- The temporary file holds `c`, synced, and is closed. -/
 def TmpReady (s : FS) (tmp : Path) (c : Content) : Prop :=
@@ -359,7 +367,7 @@ theorem creat_open {s s' : FS} {tmp : Path} {fd : Nat} (hwf : WF s)
   · split at hs
     · cases hs
     · cases hs
-      refine ⟨s.next, by simp [FS.mkFile], by simp [FS.mkFile], by simp [FS.mkFile], ?_⟩
+      refine ⟨s.next, by simp [FS.mkFile], by simp [FS.mkFile], by simp [FS.mkFile], ?_, by simp⟩
       intro fd' off hq
       simp only [FS.mkFile] at hq
       by_cases hf : fd' = fd
@@ -370,12 +378,16 @@ theorem creat_open {s s' : FS} {tmp : Path} {fd : Nat} (hwf : WF s)
 
 theorem write_open {s : FS} {tmp : Path} {fd : Nat} {c : Content} (h : TmpOpen s tmp fd c)
     (d : Content) : ∃ s', step s (.write fd d) = .ok s' ∧ TmpOpen s' tmp fd (c ++ d) := by
-  obtain ⟨i, hn, hfd, hc, huniq⟩ := h
+  obtain ⟨i, hn, hfd, hc, huniq, hdirty⟩ := h
   by_cases hd : d = []
   · subst hd
-    exact ⟨s, by simp [step, hfd], ⟨i, hn, by simpa using hfd, by simpa using hc, huniq⟩⟩
+    exact ⟨s, by simp [step, hfd], ⟨i, hn, by simpa using hfd, by simpa using hc, huniq,
+      by simpa using hdirty⟩⟩
   · have hde : d.isEmpty = false := by cases d <;> simp_all
-    refine ⟨_, by simp only [step, hfd, hde]; rfl, ⟨i, hn, ?_, ?_, ?_⟩⟩
+    refine ⟨{ s with cache := upd s.cache i (writeAt (s.cache i) c.length d),
+                     dirty := upd s.dirty i true,
+                     fds := upd s.fds fd (some (i, c.length + d.length)) },
+      by simp [step, hfd, hde], ⟨i, hn, ?_, ?_, ?_, ?_⟩⟩
     · simp
     · simp [hc, writeAt_end]
     · intro fd' off hq
@@ -383,6 +395,7 @@ theorem write_open {s : FS} {tmp : Path} {fd : Nat} {c : Content} (h : TmpOpen s
       by_cases hf : fd' = fd
       · exact hf
       · rw [upd_ne _ _ hf] at hq; exact huniq fd' off hq
+    · intro _; simp
 
 theorem writes_open {s : FS} {tmp : Path} {fd : Nat} {c : Content} (h : TmpOpen s tmp fd c)
     (chunks : List Content) :
@@ -399,8 +412,10 @@ theorem writes_open {s : FS} {tmp : Path} {fd : Nat} {c : Content} (h : TmpOpen 
 
 theorem sync_close_ready {s : FS} {tmp : Path} {fd : Nat} {c : Content} (h : TmpOpen s tmp fd c) :
     ∃ s', runAbort s [.fsync fd, .close fd] = (s', true) ∧ TmpReady s' tmp c := by
-  obtain ⟨i, hn, hfd, hc, huniq⟩ := h
-  refine ⟨_, by simp only [runAbort, step, hfd, upd]; rfl, ⟨i, hn, ?_, ?_, ?_, ?_⟩⟩
+  obtain ⟨i, hn, hfd, hc, huniq, _⟩ := h
+  refine ⟨{ s with disk := upd s.disk i (s.cache i), dirty := upd s.dirty i false,
+                   fds := upd s.fds fd none },
+    by simp [runAbort, step, hfd], ⟨i, hn, ?_, ?_, ?_, ?_⟩⟩
   · exact hc
   · simp [hc]
   · simp
@@ -444,6 +459,58 @@ theorem rename_settles {s s' : FS} {tmp dest : Path} {c : Content} (h : TmpReady
   simp only
   rw [upd_ne _ _ (Ne.symm hne)]
   simp
+
+/-- A completed atomic save has installed the new version, synced. -/
+theorem atomic_complete {s₀ s : FS} {pr : Probe} {dest tmp : Path} {fd : Nat}
+    {chunks : List Content} (hwf : WF s₀) (hne : tmp ≠ dest)
+    (h : runAbort s₀ (atomicWrite pr dest tmp fd chunks) = (s, true)) :
+    Settled s dest (some chunks.flatten) := by
+  rw [atomicWrite, runAbort_append] at h
+  cases hr : runAbort s₀ (stageOps pr tmp fd chunks) with
+  | mk s₁ ok =>
+    rw [hr] at h
+    cases ok with
+    | false => simp at h
+    | true =>
+      simp only [if_true, runAbort] at h
+      have hready := stage_complete hwf hr
+      cases hren : step s₁ (.rename tmp dest) with
+      | error er => simp [hren] at h
+      | ok s₂ =>
+        simp only [hren, Prod.mk.injEq, and_true] at h
+        subst h
+        exact rename_settles hready hne hren
+
+/-- Without the `fsync`: a completed save leaves `dest` on a dirty inode. -/
+theorem nosync_complete {s₀ s : FS} {pr : Probe} {dest tmp : Path} {fd : Nat}
+    {chunks : List Content} (hwf : WF s₀) (hne : tmp ≠ dest)
+    (h : runAbort s₀ (atomicNoSync pr dest tmp fd chunks) = (s, true)) :
+    ∃ i, s.names dest = some i ∧ s.cache i = chunks.flatten ∧
+      (chunks.flatten ≠ [] → s.dirty i = true) := by
+  simp only [atomicNoSync, List.append_assoc] at h
+  rw [runAbort_append] at h
+  split at h
+  · have hwfA := runAbort_wf hwf (probeOps pr)
+    generalize (runAbort s₀ (probeOps pr)).1 = sA at h hwfA
+    simp only [List.singleton_append, runAbort] at h
+    cases hc : step sA (.creat tmp fd) with
+    | error er => simp [hc] at h
+    | ok sB =>
+      simp only [hc] at h
+      have hopen := creat_open hwfA hc
+      rw [runAbort_append] at h
+      obtain ⟨sC, hsC, i, hn, hfd, hcache, _, hdirty⟩ := writes_open hopen chunks
+      simp only [hsC, if_true] at h
+      simp only [List.nil_append] at hcache hdirty hfd
+      simp only [runAbort, step, hfd] at h
+      have hn' : upd sC.fds fd none = upd sC.fds fd none := rfl
+      simp only [hn, hne, if_false] at h
+      cases h
+      refine ⟨i, ?_, hcache, hdirty⟩
+      simp only
+      rw [upd_ne _ _ (Ne.symm hne)]
+      simp
+  · cases h
 
 /-! ## One save, every prefix -/
 
@@ -492,5 +559,50 @@ theorem abort_prefix {s₀ : FS} {pr : Probe} {dest tmp : Path} {fd : Nat} {chun
     let s := (runAbort s₀ ((pendingAbort pr tmp fd chunks).take k)).1
     WF s ∧ Settled s dest old :=
   ⟨runAbort_wf hwf _, runAbort_safe hwf h0 _ (safe_take (abort_safe hn fd chunks) k)⟩
+
+/-! ## Successive saves -/
+
+theorem save_prefix {s₀ : FS} {dest : Path} {old : Option Content} (sv : Save) (hwf : WF s₀)
+    (h0 : Settled s₀ dest old) (hn : TempNames sv.pr sv.tmp dest) (k : Nat) :
+    WF (runAbort s₀ ((sv.prog dest).take k)).1 ∧
+      (Settled (runAbort s₀ ((sv.prog dest).take k)).1 dest old ∨
+        Settled (runAbort s₀ ((sv.prog dest).take k)).1 dest (some sv.new)) := by
+  unfold Save.prog Save.new
+  cases hc : sv.commit with
+  | true =>
+    simp only [if_true]
+    exact atomic_prefix (chunks := sv.chunks) (fd := sv.fd) hwf h0 hn k
+  | false =>
+    simp only [Bool.false_eq_true, if_false]
+    have := abort_prefix (chunks := sv.chunks) (fd := sv.fd) hwf h0 hn k
+    exact ⟨this.1, Or.inl this.2⟩
+
+theorem saves_settled (dest : Path) (svs : List Save) :
+    ∀ (s₀ : FS) (old : Option Content), WF s₀ → Settled s₀ dest old →
+      (∀ sv ∈ svs, TempNames sv.pr sv.tmp dest) →
+      WF (runSaves s₀ dest svs) ∧
+        ∃ prev, prev ∈ old :: svs.map (fun sv => some sv.new) ∧
+          Settled (runSaves s₀ dest svs) dest prev := by
+  induction svs with
+  | nil => intro s₀ old hwf h0 _; exact ⟨hwf, old, by simp, h0⟩
+  | cons sv rest ih =>
+    intro s₀ old hwf h0 hn
+    have h1 := save_prefix sv hwf h0 (hn sv (by simp)) (sv.prog dest).length
+    simp only [List.take_length] at h1
+    have hrest : ∀ x ∈ rest, TempNames x.pr x.tmp dest := fun x hx => hn x (by simp [hx])
+    simp only [runSaves, List.foldl_cons]
+    rcases h1.2 with hs | hs
+    · obtain ⟨hw, prev, hmem, hp⟩ := ih _ old h1.1 hs hrest
+      refine ⟨hw, prev, ?_, hp⟩
+      simp only [List.map_cons, List.mem_cons] at hmem ⊢
+      rcases hmem with h | h
+      · exact Or.inl h
+      · exact Or.inr (Or.inr h)
+    · obtain ⟨hw, prev, hmem, hp⟩ := ih _ (some sv.new) h1.1 hs hrest
+      refine ⟨hw, prev, ?_, hp⟩
+      simp only [List.map_cons, List.mem_cons] at hmem ⊢
+      rcases hmem with h | h
+      · exact Or.inr (Or.inl h)
+      · exact Or.inr (Or.inr h)
 
 end AGH.C14
